@@ -87,6 +87,24 @@ class Cut(ast.NodeTransformer):
             self.stats['T2'] += 1
         return node
 
+    LOGNAMES = {'debug', 'info', 'warning', 'error', 'exception', 'critical', 'log'}
+
+    def visit_Expr(self, node):
+        """self.log.debug(...) etc: arguments are formatted for the log only (T1b)"""
+        self.generic_visit(node)
+        v = node.value
+        if isinstance(v, ast.Call) and isinstance(v.func, ast.Attribute) and v.func.attr in self.LOGNAMES:
+            recv = v.func.value
+            name = recv.attr if isinstance(recv, ast.Attribute) else recv.id if isinstance(recv, ast.Name) else ''
+            if name in ('log', 'logger', '_log'):
+                self.stats['T1'] += 1
+                call = lambda n: ast.Expr(value=ast.Call(  # noqa: E731
+                    func=ast.Attribute(value=ast.Name(id='_sx', ctx=ast.Load()), attr=n, ctx=ast.Load()),
+                    args=[], keywords=[]))
+                return [ast.copy_location(call('nofmt_begin'), node),
+                        ast.copy_location(ast.Try(body=[node], handlers=[], orelse=[], finalbody=[call('nofmt_end')]), node)]
+        return node
+
     def visit_Raise(self, node):
         """raise E(<msg>)  ->  _sx.begin(); try: _sx_mN = <msg>; finally: _sx.end(); raise E(_sx_mN)
 
